@@ -56,8 +56,13 @@ STD_CRATES = ("std", "core", "alloc")
 AUTO = {"core::marker::Send": "Send", "core::marker::Sync": "Sync"}
 
 
+# "no-default" is not a feature of sea-query: it stands for `default-features = false` (configurations that
+# compile only some of the backends, round 12)
+DEFAULT_FEATURES = ["derive", "backend-mysql", "backend-postgres", "backend-sqlite"]
+
+
 def features_arg(feats):
-    return ",".join(feats)
+    return ",".join(f for f in feats if f != "no-default")
 
 
 def doc_target(key):
@@ -78,7 +83,9 @@ def rustdoc_json(key, feats, timeout=1500, target_key=None):
     env["CARGO_TARGET_DIR"] = tdir
     cmd = ["cargo", "+nightly", "rustdoc", "--offline", "--quiet", "--lib", "--manifest-path",
            os.path.join(REPO, "Cargo.toml")]
-    if feats:
+    if "no-default" in feats:
+        cmd += ["--no-default-features"]
+    if features_arg(feats):
         cmd += ["--features", features_arg(feats)]
     cmd += ["--", "-Z", "unstable-options", "--output-format", "json", "--document-private-items",
             "--cap-lints", "allow"]
@@ -614,7 +621,10 @@ def harness_build(g, target_key=None, demo=False, timeout=1500, lock_ready=False
     env = dict(vlib.ENV)
     env["CARGO_TARGET_DIR"] = tdir
     env["SQV_C20_TYPES"] = types_rs
-    feats = ["sea-query/" + f for f in g.feats]
+    # harness_c20 depends on sea-query with default-features = false: the default set is named here unless the
+    # configuration asks for "no-default"
+    fl = [f for f in g.feats if f != "no-default"] + ([] if "no-default" in g.feats else DEFAULT_FEATURES)
+    feats = ["sea-query/" + f for f in fl]
     cmd = ["cargo", "build", "--offline", "--quiet"]
     if feats:
         cmd += ["--features", ",".join(feats)]
